@@ -157,6 +157,91 @@ def random_trace(rec, rng, D, steps, gapcap):
         rel = ts + delay
 
 
+def session_binding(chk, thorough):
+    """A recording policer is given to real sync / async sessions; Grant / Wire events are judged by TracePolicer.tla."""
+    import asyncio, threading
+    from gufo.snmp.policer import BasePolicer
+    from vlib import apidrv, walks, scripts, agent as ag
+    std = scripts.std_cfgs()
+    rec = trace.Recorder("policer-session")
+    lock = threading.Lock()
+
+    def emit(e):
+        with lock:
+            rec.emit(e)
+
+    class Rec(BasePolicer):
+        def get_timeout(self, ts):
+            emit({"ev": "Grant"})
+            return None
+
+    class Sink:
+        """stands in for the session trace recorder: only requests reaching the agent matter here"""
+        n = 0
+
+        def emit(self, e):
+            if e.get("ev") == "Send" and e.get("nwire"):
+                emit({"ev": "Wire"})
+    mib = [bytes([43, 6, 1, 4, 1, 206, 15, 5, i]) for i in range(1, 6)]
+    nsess = 0
+    for cn in ("v2c", "v1", "v3-md5"):
+        cfg = std[cn]
+        # sync
+        holder = {}
+        emit({"ev": "Sess"})
+        api = apidrv.SyncApi(Sink(), cfg, lambda req: holder["r"](req), timeout=0.3, policer=Rec())
+        agent = ag.Agent(engine=cfg.engine or None) if cfg.engine else ag.Agent()
+        holder["r"] = walks.honest_responder(agent, api.cfgref, mib, 2)
+        s = api.session
+        try:
+            s.get("1.3.6.1.4.1.9999.5.1")
+            s.get_many(["1.3.6.1.4.1.9999.5.1", "1.3.6.1.4.1.9999.5.2"])
+            list(s.getnext("1.3.6.1.4.1.9999.5"))
+            if cfg.ver != "v1":
+                list(s.getbulk("1.3.6.1.4.1.9999.5", 2))
+            list(s.fetch("1.3.6.1.4.1.9999.5"))
+        except Exception:
+            pass
+        api.close()
+        nsess += 1
+
+        async def go():
+            holder2 = {}
+            emit({"ev": "Sess"})
+            api2 = await apidrv.AsyncApi.create(Sink(), cfg, lambda req: holder2["r"](req), timeout=0.3, policer=Rec())
+            holder2["r"] = walks.honest_responder(agent, api2.cfgref, mib, 2)
+            s2 = api2.session
+            try:
+                await s2.get("1.3.6.1.4.1.9999.5.1")
+                await s2.get_many(["1.3.6.1.4.1.9999.5.1", "1.3.6.1.4.1.9999.5.2"])
+                async for _ in s2.getnext("1.3.6.1.4.1.9999.5"):
+                    pass
+                if cfg.ver != "v1":
+                    async for _ in s2.getbulk("1.3.6.1.4.1.9999.5", 2):
+                        pass
+                async for _ in s2.fetch("1.3.6.1.4.1.9999.5"):
+                    pass
+            except Exception:
+                pass
+            api2.close()
+        asyncio.run(go())
+        nsess += 1
+    path = rec.close()
+    nwire = sum(1 for e in rec.events if e["ev"] == "Wire")
+    if nwire < 40:
+        raise ToolError("session binding run too small: %d requests" % nwire)
+    v = trace.validate("TracePolicer.tla", "TracePolicer.cfg", path, timeout=600)
+    chk.add_tlc(v["res"], "TracePolicer(session binding)")
+    if not v["accepted"]:
+        at = v["rejected_at"]
+        chk.violation(dict(kind="session-binding"), "a request reached the wire without a fresh grant from the policer (event %d of the Grant/Wire trace)" % at,
+                      dict(events=rec.events[max(0, at - 8):at]))
+    else:
+        chk.traces += nsess
+        chk.case(("session-binding", nwire), n=nwire)
+        chk.extra["session_binding_requests"] = nwire
+
+
 def run(tier):
     chk = Check("C19", tier)
     thorough = tier == "thorough"
@@ -293,6 +378,8 @@ def run(tier):
         chk.traces += ntr
         chk.case(("traces", ntr), n=rec.n)
         chk.sample(dict(kind="trace-events", events=rec.events[:4]))
+    # 4b. the sessions really consult the policer before EVERY request (get, get_many, each step of getnext / getbulk / fetch)
+    session_binding(chk, thorough)
     # 5. unbounded part: Apalache inductive invariant (symbolic D, unbounded times)
     ok0, out0, w0 = tlc.run_apalache(["check", "--cinit=ConstInit", "--init=Init", "--inv=IndInv", "--length=0", "Policer_apa.tla"])
     ok1, out1, w1 = tlc.run_apalache(["check", "--cinit=ConstInit", "--init=IndInit", "--inv=IndInv", "--length=1", "Policer_apa.tla"])
